@@ -629,7 +629,8 @@ def run_world(ctx, world, workdir):
     case = world
     try:
         record, skipped = build_record(world)
-    except Exception as err:  # pylint: disable=broad-except
+    except (ValueError, AssertionError) as err:
+        # the layout is refused while areas are formed (C05/C06's subject); anything else reaches the guard
         ctx.count("gen:world-refused-by-antismash")
         ctx.count("gen:refused:" + type(err).__name__)
         return None
